@@ -249,6 +249,7 @@ def run(P, R, tier):
     reentry_rule(P, R)
     scancount_rule(P, R)
     rowtypes_rule(P, R)
+    cutback_rule(P, R)
     replacegrow_rule(P, R)
     stdthrow_census(P, R, reach)
 
@@ -1626,3 +1627,43 @@ def rowtypes_rule(P, R):
         else:
             R.violation(RULE, inst, "a path through the splitting loop reaches count++ (line %d) without a push_back to %s: count exceeds the vector's length and the callers "
                         "index past its end (crash on a cell of unknown type)" % (bad, inst), file=f["file"], line=bad, function=f["q"])
+
+
+def cutback_rule(P, R):
+    """rk_kinetics re-enters a step at the label MOLES_TOO_LARGE after cutting the step size back (a stage removed more than the reactant
+    holds, or the solution calculation failed).  The zero-step gate (C08.gotoloop) ends a cycle whose step shrinks to nothing, but a
+    cut-back / accept-a-tiny-step / enlarge / cut-back pattern advances by ~1e-16 s per round and never gets there.  The budget of
+    failed steps (-bad_step_max: the counter compared with Get_bad_step_max() in a test that ends in STOP) must therefore be charged by
+    the cut-back itself: the block under the label that reduces h increments that counter and tests it."""
+    RULE = "C08.cutback"
+    R.rule(RULE, "rk_kinetics: the cut-back under MOLES_TOO_LARGE charges and tests the -bad_step_max budget", minimum=1)
+    f = P.one("Phreeqc::rk_kinetics")
+    counters = set()
+    for x in T.walk(f["body"]):
+        if x[0] == "If" and any(T.callee_name(c) == "Get_bad_step_max" for c in T.calls(x[2])) and any(
+                T.callee_name(c) == "error_msg" and len(c[4]) >= 2 and T.lit_value(T.strip_casts(c[4][1])) == 1 for c in T.calls(x[3])):
+            for y in T.walk(x[2]):
+                if y[0] == "Ref" and y[2] == "local":
+                    counters.add(y[3])
+    if not counters:
+        R.anchor_missing(RULE, "rk_kinetics: no counter is tested against Get_bad_step_max() with STOP")
+        return
+    labels = [x for x in T.walk(f["body"]) if x[0] == "Label" and x[2] == "MOLES_TOO_LARGE"]
+    if len(labels) != 1:
+        R.anchor_missing(RULE, "rk_kinetics: label MOLES_TOO_LARGE not found")
+        return
+    st = labels[0][3]
+    if not (T.is_node(st) and st[0] == "If"):
+        R.anchor_missing(RULE, "rk_kinetics: the statement under MOLES_TOO_LARGE is not the cut-back test")
+        return
+    reduces = any(how in ("=", "op=") and T.is_node(T.strip_casts(t)) and T.strip_casts(t)[0] == "Ref" and T.strip_casts(t)[3] == "h" for t, how, line, n in T.writes(st[3]))
+    if not reduces:
+        R.anchor_missing(RULE, "rk_kinetics: the block under MOLES_TOO_LARGE does not assign h")
+        return
+    charged = [c for c in counters if any(how == "++" and T.is_node(T.strip_casts(t)) and T.strip_casts(t)[0] == "Ref" and T.strip_casts(t)[3] == c for t, how, line, n in T.writes(st[3]))]
+    tested = any(x[0] == "If" and any(T.callee_name(c) == "Get_bad_step_max" for c in T.calls(x[2])) for x in T.walk(st[3]))
+    if charged and tested:
+        R.ok(RULE, "MOLES_TOO_LARGE", "cut-back increments %s and tests it against -bad_step_max" % charged[0])
+    else:
+        R.violation(RULE, "MOLES_TOO_LARGE", "the cut-back under MOLES_TOO_LARGE reduces h without charging the failed-step budget (%s): a reaction that fails at every step size above "
+                    "~1e-16 s alternates cut-back and tiny accepted steps and the call does not return" % ", ".join(sorted(counters)), file=f["file"], line=labels[0][1], function=f["q"])
